@@ -112,6 +112,7 @@ func main() {
 			registry[id](p, r, *tier)
 			if *tier == "thorough" && !*noSelf && *only == "" {
 				selfTest(p, r, *verif, seed)
+				neutralTest(p, r, *verif)
 			}
 		}()
 		if len(want) == 1 {
